@@ -466,6 +466,7 @@ def lookup_probes(M, rng, per_lookup=48):
             ty = lk["ty"]
             firsts = []
             seconds = []
+            classy = 0
             for st in lk["st"]:
                 if ty in ("sub1", "sub2", "sub3", "pos1", "curs"):
                     for e in st["m"]:
@@ -502,10 +503,20 @@ def lookup_probes(M, rng, per_lookup=48):
                             seconds.append(e[1])
                     else:
                         firsts += st["cov"]
+                        # every class1 (first glyph set) with its first and last listed class2, then the rest
+                        by1 = {}
                         for e in st["c"]:
+                            by1.setdefault(tuple(e[0]), []).append(e)
+                        rest = []
+                        for s1, es in by1.items():
+                            for e in (es[0], es[-1]):
+                                seqs.insert(0, [e[0][0], e[1][0]])
+                            seqs.insert(0, [s1[-1], es[len(es) // 2][1][-1]])
+                            rest += es[1:-1]
+                        for e in rest[:: max(1, len(rest) // 40)]:
                             seqs.append([e[0][0], e[1][0]])
-                            seqs.append([e[0][-1], e[1][-1]])
-                            seconds.append(e[1][0])
+                        seconds += [e[1][0] for e in st["c"][:8]]
+                        classy = max(classy, 3 * len(by1))
                 elif ty in ("mkb", "mkm"):
                     for b in st["bases"]:
                         for m in st["marks"]:
@@ -531,11 +542,13 @@ def lookup_probes(M, rng, per_lookup=48):
                 if s and k not in seen:
                     seen.add(k)
                     uniq.append(s)
-            if len(uniq) > per_lookup:
+            per_lookup_here = min(420, max(per_lookup, classy))
+            if len(uniq) > per_lookup_here:
                 # keep a spread: rules next to subtable boundaries come first in st order, so take both ends and a sample
-                keep = uniq[:per_lookup // 4] + uniq[-per_lookup // 4:]
-                rest = uniq[per_lookup // 4: -per_lookup // 4]
-                keep += rng.sample(rest, min(len(rest), per_lookup - len(keep)))
+                head = max(per_lookup_here // 4, classy)
+                keep = uniq[:head] + uniq[-(per_lookup_here // 4):]
+                rest = uniq[head: -(per_lookup_here // 4)]
+                keep += rng.sample(rest, max(0, min(len(rest), per_lookup_here - len(keep))))
                 uniq = keep
             res.append(uniq)
         out[tb] = res
